@@ -41,7 +41,8 @@ RULE = ("macro definitions grown from the script grammar (0-4 parameters used 0/
         "optionally after ANOTHER creator of the same __name__) x operation sequences (assignments to macro/child "
         "inputs and outputs at any depth through the panel item / panel attribute / channel.value spellings, "
         "m.run(x=v) / m(x=v), refused non-int assignments, re-assignment of the same object after a child-level "
-        "edit, runs); a case is non-trivial when the macro has at least one child and the sequence contains a run; "
+        "edit, replacement of a function child (any depth) by a fresh node of its class through replace_child / "
+        "replace_with / `macro.child = Class`, runs); a case is non-trivial when the macro has at least one child and the sequence contains a run; "
         "distinct = distinct (definition, declarations, operations)")
 TRUSTED = ["harness/props/c09.py: rendering of a definition as python source, reading the wiring and the values off "
            "the real objects, the plain-python and plain-Workflow references",
@@ -1181,7 +1182,7 @@ def gen_bad_ops(rng, d, ops):
 def generate(ctx):
     rng = ctx.rng
     cases, seen = [], set()
-    n = ctx.n(700, 6000)
+    n = ctx.n(660, 6000)
     while len(cases) < n:
         fam = rng.random()
         depth = rng.choice([0, 1, 1, 2, 2])             # at most three levels of macros
